@@ -1,6 +1,7 @@
 import GIV.Lemmas.CachePutConcReadable
 import GIV.Lemmas.CachePutMix
 import GIV.Lemmas.CacheCodecBridge
+import GIV.Lemmas.CacheParseGo
 /-!
 # C11 — concurrent cache users never observe corrupt or foreign data
 
@@ -342,5 +343,28 @@ example : entryA.length = 175 ∧ entryB.length = 175 ∧ Mixture tornRead entry
 example : ∃ tm : Int, Cache.parseEntry realId tornRead = .ok ⟨realOut, 3, tm⟩ ∧ 10 ^ 18 ≤ tm ∧ tm < 9 * 10 ^ 18 :=
   mix_parse_same_real realId realOut 3 1700000000123456789 1700000000987654321 (by decide) (by decide) (by decide)
     (CacheBridge.mixture_take_drop 168 entryA entryB (by decide +kernel))
+
+/-- **mix_parse_same over the translated parser**: the index-entry parser of cache.go itself (the Go→Lean translation of
+the statements inside `(*Cache).get`, regenerated by the cache group, `GIV/Gen/CacheParseGo.lean`), run on the buffer
+`get` fills with ANY byte-wise mixture of two real index entries for the same (id, output, size) — whatever the spare
+last byte holds — accepts with that output id and that size and a time stamp in the window. -/
+theorem go_mix_parse_same (id out : Cache.Hash) (size : Nat) (t1 t2 : Int)
+    (hs : size < 2 ^ 63) (h1 : 10 ^ 18 ≤ t1 ∧ t1 < 9 * 10 ^ 18) (h2 : 10 ^ 18 ≤ t2 ∧ t2 < 9 * 10 ^ 18) {m : Bytes}
+    (hm : Mixture m (Cache.fmtEntry id out (size : Int) t1) (Cache.fmtEntry id out (size : Int) t2)) (x : UInt8) :
+    ∃ tm : Int, GIV.Go.CacheParse.parseEntrySlice (m ++ [x]) id.val = some (out.val, (size : Int), tm, [], true) ∧
+      10 ^ 18 ≤ tm ∧ tm < 9 * 10 ^ 18 := by
+  obtain ⟨tm, hp, hw1, hw2⟩ := mix_parse_same_real id out size t1 t2 hs h1 h2 hm
+  have hlen : m.length = Gen.Cache.entrySize := (Cache.parseEntry_ok hp).1
+  refine ⟨tm, ?_, hw1, hw2⟩
+  rw [CacheParseGo.go_parseEntrySlice_eq id (m ++ [x]) (by simp [hlen]), List.take_left' hlen, hp]
+  rfl
+
+example : ∃ tm : Int, GIV.Go.CacheParse.parseEntrySlice (tornRead ++ [0]) realId.val = some (realOut.val, 3, tm, [], true) ∧
+    10 ^ 18 ≤ tm ∧ tm < 9 * 10 ^ 18 :=
+  go_mix_parse_same realId realOut 3 1700000000123456789 1700000000987654321 (by decide) (by decide) (by decide)
+    (CacheBridge.mixture_take_drop 168 entryA entryB (by decide +kernel)) 0
+
+example : GIV.Go.CacheParse.parseEntrySlice (tornRead ++ [0]) realId.val = some (realOut.val, 3, 1700000000123654321, [], true) := by
+  decide +kernel
 
 end GIV.C11
